@@ -65,13 +65,13 @@ def cells(tier, seed):
                 picks.add(rnd.choice(pool))
             for n in sorted(picks):
                 out.append({'dim': 1, 'wave': w, 'mode': mode, 'J': rnd.choice([1, 1, 2, 3, 4]),
-                            'shape': [n], 'N': rnd.choice([1, 2, 3]), 'C': rnd.choice([1, 2, 3])})
+                            'shape': [n], 'N': rnd.choice([1, 2, 3]), 'C': rnd.choice([1, 2, 3, 5])})
             for _ in range(n2):
                 h, wd = rnd.choice(SIDES), rnd.choice(SIDES)
                 if h == wd:
                     wd = rnd.choice([s for s in SIDES if s != h])
                 out.append({'dim': 2, 'wave': w, 'mode': mode, 'J': rnd.choice([1, 1, 2, 3]),
-                            'shape': [h, wd], 'N': rnd.choice([1, 2]), 'C': rnd.choice([1, 2, 3])})
+                            'shape': [h, wd], 'N': rnd.choice([1, 2]), 'C': rnd.choice([1, 2, 3, 4])})
             if tier == 'thorough' or rnd.random() < 0.25:
                 out.append({'dim': 2, 'wave': w, 'mode': mode, 'J': rnd.choice([1, 2, 3, 4]),
                             'shape': [rnd.choice(BIG), rnd.choice(BIG + [16, 17])], 'N': 1, 'C': 2,
@@ -150,6 +150,8 @@ def run_cell(cell, seed):
             x = util.make_input(kind, [cell['N'], cell['C']] + sp, seed)
         ok, y = util.call_lib(mod, x)
         out.append(judge(cell, kind, x, ok, y, L))
+    if not cell.get('noimp') and core.rng_for(seed, PROP, 'reload', str(cell)).random() < 0.34:
+        out.extend(reload_history(cell, seed))
     # generalisation certificate for this cell
     x = util.make_input('randn', [1, 1] + sp, seed)
     z = torch.zeros_like(x)
@@ -164,6 +166,39 @@ def run_cell(cell, seed):
         out.append(res(HELD, case, 'M-DISP.linear', info))
     else:
         out.append(res(INCONCLUSIVE, case, 'M-DISP.linear', '%s: %s' % (st, detail)))
+    return out
+
+
+_SAME = {}
+
+
+def same_length_other(wave):
+    if not _SAME:
+        for w in refs.all_wavelets():
+            _SAME.setdefault(refs.flen(w), []).append(w)
+    c = [w for w in _SAME[refs.flen(wave)] if w != wave and pywt.Wavelet(w).dec_lo != pywt.Wavelet(wave).dec_lo]
+    return c[0] if c else None
+
+
+def reload_history(cell, seed):
+    """history: use the module, overwrite its filter buffers in place with other taps of the same
+    length (load_state_dict), use it again: the values must follow the new taps"""
+    other = same_length_other(cell['wave'])
+    if other is None:
+        return []
+    cell2 = dict(cell, wave=other, reloaded_from=cell['wave'])
+    mod = build(cell)
+    sp = cell['shape']
+    xs = {'reload-impulse': util.impulses(sp), 'reload-randn': util.make_input('randn', [cell['N'], cell['C']] + sp, seed + 31)}
+    for x in xs.values():
+        if not util.call_lib(mod, x)[0]:
+            return []
+    mod.load_state_dict(build(cell2).state_dict())
+    out = []
+    L = refs.flen(other)
+    for kind, x in xs.items():
+        ok, y = util.call_lib(mod, x)
+        out.append(judge(cell2, kind, x, ok, y, L))
     return out
 
 
